@@ -43,7 +43,7 @@ func init() { registerTable("ActionSkeleton", genActionSkeleton) }
 var skelTypeClass = map[string]string{
 	"Install": "Install", "Upgrade": "Upgrade", "Rollback": "Rollback", "Uninstall": "Uninstall",
 	"History": "History", "Configuration": "Configuration", "Storage": "Storage",
-	"Interface": "KubeClient", "Waiter": "Waiter", "Driver": "Driver",
+	"Interface": "KubeClient", "Waiter": "Waiter", "Driver": "Driver", "Context": "Context",
 }
 
 var skelActionClass = map[string]bool{"Install": true, "Upgrade": true, "Rollback": true, "Uninstall": true, "History": true}
@@ -89,6 +89,7 @@ var skelIgnored = map[string]bool{
 	"Configuration.getCapabilities": true, "Configuration.renderResources": true, "Configuration.Now": true,
 	"Configuration.deriveNamespace": true,
 	"Install.createRelease":         true, "Install.isDryRun": true, "Upgrade.isDryRun": true, "Upgrade.reuseValues": true,
+	"Context.Done": true, "Context.Err": true,
 }
 
 // unqualified functions of the package known to be effect-free (or only Build)
@@ -109,7 +110,8 @@ var skelBuiltins = map[string]bool{
 var skelFlags = map[string]bool{
 	"Atomic": true, "CleanupOnFail": true, "KeepHistory": true, "Replace": true, "DisableHooks": true,
 	"DryRun": true, "ClientOnly": true, "TakeOwnership": true,
-	// not in the model (the checker holds them false)
+	// not in the model (the checker holds them false); "ContextCancelled" is not a field: it is
+	// the condition of a select clause that receives from ctx.Done()
 	"Recreate": true, "WaitForJobs": true, "CreateNamespace": true, "HideSecret": true, "SkipCRDs": true,
 	"IgnoreNotFound": true, "IsUpgrade": true,
 }
@@ -160,6 +162,7 @@ type skFunc struct {
 	tracked  map[string]bool
 	typeName map[string]bool // package-level type names (conversions)
 	nonNil   map[string]bool // error variables known non-nil here (inside `if x != nil`)
+	decls    map[string]*ast.FuncDecl // every tracked function
 	hasErr   bool            // the last result of the function is an error
 }
 
@@ -331,6 +334,9 @@ func (f *skFunc) call(c *ast.CallExpr) []skNode {
 				}
 				arg = v
 			}
+			if m := f.errArgMarker(key, c); m != nil {
+				out = append(out, *m)
+			}
 			return append(out, skNode{Op: "Fn", A: key, B: arg})
 		case skelIgnored[key]:
 			return out
@@ -338,6 +344,36 @@ func (f *skFunc) call(c *ast.CallExpr) []skNode {
 		return append(out, skUnknown("call of %s", key))
 	}
 	return append(out, skUnknown("call of %s", skExprName(c.Fun)))
+}
+
+// errArgMarker: when the tracked callee has a parameter of type error, what is passed for it:
+// ArgOk (literal nil), ArgErr (an error known to be non-nil), Pure (anything else)
+func (f *skFunc) errArgMarker(key string, c *ast.CallExpr) *skNode {
+	fd := f.decls[key]
+	if fd == nil || fd.Type.Params == nil {
+		return nil
+	}
+	idx, pos := -1, 0
+	for _, p := range fd.Type.Params.List {
+		n := len(p.Names)
+		if n == 0 {
+			n = 1
+		}
+		if id, ok := p.Type.(*ast.Ident); ok && id.Name == "error" {
+			idx = pos + n - 1
+		}
+		pos += n
+	}
+	if idx < 0 || idx >= len(c.Args) {
+		return nil
+	}
+	switch f.errKind(c.Args[idx]) {
+	case "ReturnOk":
+		return &skNode{Op: "ArgOk"}
+	case "ReturnErr":
+		return &skNode{Op: "ArgErr"}
+	}
+	return &skNode{Op: "Pure", A: "keep"}
 }
 
 // Query(map[string]string{"name": …, "owner": …[, "status": "deployed"]})
@@ -469,7 +505,12 @@ func (f *skFunc) returnKind(r *ast.ReturnStmt) string {
 	if !f.hasErr || len(r.Results) == 0 {
 		return "Return"
 	}
-	switch v := r.Results[len(r.Results)-1].(type) {
+	return f.errKind(r.Results[len(r.Results)-1])
+}
+
+// errKind: is the error expression nil ("ReturnOk"), known non-nil ("ReturnErr") or neither ("Return")
+func (f *skFunc) errKind(e ast.Expr) string {
+	switch v := e.(type) {
 	case *ast.Ident:
 		if v.Name == "nil" {
 			return "ReturnOk"
@@ -693,11 +734,17 @@ func (f *skFunc) stmt(s ast.Stmt) []skNode {
 		return []skNode{skUnknown("%s", v.Tok)}
 	case *ast.SelectStmt:
 		var alts [][]skNode
+		var conds []string
 		for _, cc := range v.Body.List {
 			c := cc.(*ast.CommClause)
 			alts = append(alts, append(f.stmt(c.Comm), f.block(c.Body)...))
+			cond := "CData"
+			if f.recvFromDone(c.Comm) {
+				cond = `(CFlag "ContextCancelled")`
+			}
+			conds = append(conds, cond)
 		}
-		return skAlternatives(alts)
+		return skAlternativesC(alts, conds)
 	case *ast.SwitchStmt:
 		out := f.stmt(v.Init)
 		out = append(out, f.expr(v.Tag)...)
@@ -739,13 +786,45 @@ func (f *skFunc) clauses(l []ast.Stmt) []skNode {
 
 // exactly one of the alternatives runs; which one is data
 func skAlternatives(alts [][]skNode) []skNode {
+	return skAlternativesC(alts, nil)
+}
+
+func skAlternativesC(alts [][]skNode, conds []string) []skNode {
 	if len(alts) == 0 {
 		return nil
 	}
 	if len(alts) == 1 {
 		return alts[0]
 	}
-	return []skNode{{Op: "If", Cond: "CData", Th: alts[0], El: skAlternatives(alts[1:])}}
+	c := "CData"
+	var rest []string
+	if len(conds) > 0 {
+		c, rest = conds[0], conds[1:]
+	}
+	return []skNode{{Op: "If", Cond: c, Th: alts[0], El: skAlternativesC(alts[1:], rest)}}
+}
+
+// recvFromDone: the communication of a select clause is `<-ctx.Done()` for a context.Context
+func (f *skFunc) recvFromDone(s ast.Stmt) bool {
+	var e ast.Expr
+	switch v := s.(type) {
+	case *ast.ExprStmt:
+		e = v.X
+	case *ast.AssignStmt:
+		if len(v.Rhs) == 1 {
+			e = v.Rhs[0]
+		}
+	}
+	u, ok := e.(*ast.UnaryExpr)
+	if !ok || u.Op != token.ARROW {
+		return false
+	}
+	c, ok := u.X.(*ast.CallExpr)
+	if !ok {
+		return false
+	}
+	sel, ok := c.Fun.(*ast.SelectorExpr)
+	return ok && sel.Sel.Name == "Done" && f.classOf(sel.X) == "Context"
 }
 
 // ---- simplification -----------------------------------------------------------------------------
@@ -808,6 +887,9 @@ func skDropPure(l []skNode) []skNode {
 	for i, n := range l {
 		switch n.Op {
 		case "Pure":
+			if n.A == "keep" {
+				break
+			}
 			if i+1 >= len(l) {
 				continue
 			}
@@ -886,7 +968,7 @@ func skPrintNode(b *strings.Builder, n skNode, ind string) {
 		b.WriteString("Fn " + hx.CoqStr(n.A) + " " + hx.CoqStr(n.B))
 	case "Run":
 		b.WriteString("Run " + hx.CoqStr(n.A) + " " + hx.CoqStrList(n.Inherit))
-	case "Return", "ReturnOk", "ReturnErr", "Pure":
+	case "Return", "ReturnOk", "ReturnErr", "Pure", "ArgOk", "ArgErr":
 		b.WriteString(n.Op)
 	case "Loop":
 		b.WriteString("Loop\n" + ind + "  ")
@@ -944,6 +1026,21 @@ func genActionSkeleton(repo string) (string, error) {
 			tracked[n] = true
 		}
 	}
+	// every function of the tracked files, for the parameter types of callees
+	allDecls := map[string]*ast.FuncDecl{}
+	for _, t := range skelTracked {
+		af, _, err := parseFile(repo, t.File)
+		if err != nil {
+			return "", err
+		}
+		for _, d := range af.Decls {
+			if fd, ok := d.(*ast.FuncDecl); ok && fd.Body != nil {
+				if _, rt := skRecv(fd); rt != "" {
+					allDecls[rt+"."+fd.Name.Name] = fd
+				}
+			}
+		}
+	}
 	var b strings.Builder
 	b.WriteString("From Helm Require Import Engine.Skeleton.\n\n")
 	b.WriteString("(* effect skeletons of pkg/action/{install,upgrade,rollback,uninstall,history,hooks,action}.go\n   and pkg/storage/storage.go; see harness/cmd/hx/gentables_skel.go *)\n")
@@ -983,7 +1080,7 @@ func genActionSkeleton(repo string) (string, error) {
 			} else {
 				rv, rt := skRecv(fd)
 				f := &skFunc{name: name, recv: rv, class: map[string]string{}, errVars: map[string]bool{},
-					inherit: map[string][]string{}, events: events, tracked: tracked, typeName: typeNames, nonNil: map[string]bool{}}
+					inherit: map[string][]string{}, events: events, tracked: tracked, typeName: typeNames, nonNil: map[string]bool{}, decls: allDecls}
 				if rs := fd.Type.Results; rs != nil && len(rs.List) > 0 {
 					if id, ok := rs.List[len(rs.List)-1].Type.(*ast.Ident); ok && id.Name == "error" {
 						f.hasErr = true
